@@ -44,6 +44,8 @@ type RLAction struct {
 	Qr   int64  `json:"qr,omitempty"`
 	Dur  int64  `json:"dur,omitempty"`
 	Pkt  *RLPkt `json:"pkt,omitempty"`
+	W    int64  `json:"w,omitempty"`    // receiver variant of a transfer (0 | 1)
+	Pair string `json:"pair,omitempty"` // WlAdd / WlDel: "snd>rcv" (abstract party names)
 }
 
 type RLRec struct {
@@ -73,7 +75,9 @@ type RLState struct {
 	NsAB  int64    `json:"nsAB"`
 	NsAC  int64    `json:"nsAC"`
 	Nr    int64    `json:"nr"`
-	Other int64    `json:"other"` // rate limits / markers that are not on a modelled path
+	Wl    []string `json:"wl"` // whitelisted address pairs "snd>rcv" (abstract party names)
+	Bl    []string `json:"bl"` // blacklisted denominations (abstract names)
+	Other int64    `json:"other"` // rate limits / markers / list entries that are not modelled
 	Dig   string   `json:"dig"`
 }
 
@@ -161,6 +165,54 @@ func (w *RLWorld) realDenom(d string) string {
 	return w.realV
 }
 
+// party maps an abstract party name of RateLimit.tla ("uA", "rB", "xA", "yC", ...) to the address string it stands
+// for: u = user, r = second account, x / y = two strings that are not addresses (a receive naming them fails).
+func (w *RLWorld) party(name string) (string, bool) {
+	if len(name) != 2 || w.ch[name[1:]] == nil {
+		return "", false
+	}
+	c := name[1:]
+	switch name[0] {
+	case 'u':
+		return w.user(c).String(), true
+	case 'r':
+		return w.rcvr(c).String(), true
+	case 'x':
+		return "not-a-valid-address", true
+	case 'y':
+		return "not-a-valid-address-2", true
+	}
+	return "", false
+}
+
+// partyName is the inverse of party for the addresses of chain-independent strings and the accounts of all chains.
+func (w *RLWorld) partyName(addr string) (string, bool) {
+	for _, c := range w.names {
+		for _, k := range []string{"u", "r"} {
+			if a, _ := w.party(k + c); a == addr {
+				return k + c, true
+			}
+		}
+	}
+	return "", false
+}
+
+// receiverOf is the receiver address of a transfer to chain c: valid (user / second account) unless the transfer is
+// to fail on receive, variant v.
+func (w *RLWorld) receiverOf(c string, fails bool, v int64) string {
+	k := "u"
+	switch {
+	case fails && v == 1:
+		k = "y"
+	case fails:
+		k = "x"
+	case v == 1:
+		k = "r"
+	}
+	a, _ := w.party(k + c)
+	return a
+}
+
 func farFuture(at time.Time) uint64 { return uint64(at.Add(1000 * time.Hour).UnixNano()) }
 
 // Exec executes one abstract action; the transaction on A is the last block of the step.
@@ -184,10 +236,7 @@ func (w *RLWorld) Exec(a RLAction) (line RLLine) {
 			return RLLine{Res: "err", Err: "no such channel"}
 		}
 		peer := l.other("A")
-		receiver := w.user(peer).String()
-		if a.Fate == "err" {
-			receiver = "not-a-valid-address"
-		}
+		receiver := w.receiverOf(peer, a.Fate == "err", a.W)
 		toH, toT := clienttypes.ZeroHeight(), farFuture(w.finalTime())
 		if a.Fate == "to" {
 			toH = clienttypes.NewHeight(clienttypes.ParseChainID(w.ch[peer].ChainID), uint64(w.ch[peer].App.LastBlockHeight())+1)
@@ -217,10 +266,8 @@ func (w *RLWorld) Exec(a RLAction) (line RLLine) {
 		if a.D == "N" {
 			denom = w.nOnB
 		}
-		receiver, memo := w.user("A").String(), ""
+		receiver, memo := w.receiverOf("A", a.Fate == "err", a.W), ""
 		switch a.Fate {
-		case "err":
-			receiver = "not-a-valid-address"
 		case "fok", "ferr", "fto":
 			final := w.user("C").String()
 			if a.Fate == "ferr" {
@@ -277,6 +324,39 @@ func (w *RLWorld) Exec(a RLAction) (line RLLine) {
 	case "XImport":
 		res, xi, errStr := w.exportImport("A")
 		return RLLine{Res: res, Xi: xi, Err: errStr}
+
+	case "WlAdd", "WlDel", "BlAdd", "BlDel":
+		// the module has no messages for its lists: genesis and upgrade handlers call these keeper functions
+		k := A.GetSimApp().RateLimitKeeper
+		var fn func(ctx sdk.Context) error
+		switch a.A {
+		case "WlAdd", "WlDel":
+			parts := strings.SplitN(a.Pair, ">", 2)
+			if len(parts) != 2 {
+				w.blockAt("A", w.finalTime())
+				return RLLine{Res: "err", Err: "bad pair"}
+			}
+			snd, ok1 := w.party(parts[0])
+			rcv, ok2 := w.party(parts[1])
+			if !ok1 || !ok2 {
+				w.blockAt("A", w.finalTime())
+				return RLLine{Res: "err", Err: "unknown party"}
+			}
+			if a.A == "WlAdd" {
+				fn = func(ctx sdk.Context) error {
+					k.SetWhitelistedAddressPair(ctx, rltypes.WhitelistedAddressPair{Sender: snd, Receiver: rcv})
+					return nil
+				}
+			} else {
+				fn = func(ctx sdk.Context) error { k.RemoveWhitelistedAddressPair(ctx, snd, rcv); return nil }
+			}
+		case "BlAdd":
+			fn = func(ctx sdk.Context) error { k.AddDenomToBlacklist(ctx, w.realDenom(a.D)); return nil }
+		default:
+			fn = func(ctx sdk.Context) error { k.RemoveDenomFromBlacklist(ctx, w.realDenom(a.D)); return nil }
+		}
+		res, errStr := w.keeperTx("A", fn)
+		return RLLine{Res: res, Err: errStr}
 
 	case "Add", "Update", "Remove", "Reset":
 		l := w.links[a.Ch]
@@ -367,12 +447,33 @@ func (w *World) authorityTx(c string, msg sdk.Msg, validateBasic func() error) (
 	return "ok", ""
 }
 
+// keeperTx runs an administrative keeper call in a block of its own (an empty block first, as for authorityTx) on a
+// cached context that is written only on success.
+func (w *World) keeperTx(c string, fn func(ctx sdk.Context) error) (res string, errStr string) {
+	chain := w.ch[c]
+	w.helperBlock(c)
+	w.coord.SetTime(w.finalTime())
+	defer func() {
+		if r := recover(); r != nil {
+			res, errStr = "panic", fmt.Sprint(r)
+		}
+		w.nblk[c]++
+		chain.NextBlock()
+	}()
+	cacheCtx, write := chain.GetContext().CacheContext()
+	if err := fn(cacheCtx); err != nil {
+		return "err", err.Error()
+	}
+	write()
+	return "ok", ""
+}
+
 // State projects the rate-limit state of A.
 func (w *RLWorld) State() RLState {
 	A := w.ch["A"]
 	ctx := A.GetContext()
 	k := A.GetSimApp().RateLimitKeeper
-	st := RLState{Now: w.now, Rl: []RLRec{}, Ps: []RLMark{}, Pr: []RLMark{}}
+	st := RLState{Now: w.now, Rl: []RLRec{}, Ps: []RLMark{}, Pr: []RLMark{}, Wl: []string{}, Bl: []string{}}
 	if ep, err := k.GetHourEpoch(ctx); err == nil {
 		st.EpNum = int64(ep.EpochNumber)
 		d := ep.EpochStartTime.Sub(w.T0)
@@ -424,6 +525,35 @@ func (w *RLWorld) State() RLState {
 	if ids, err := k.GetAllPendingReceivePackets(ctx); err == nil {
 		st.Pr = marks(ids)
 	}
+	invalid := map[string]string{"not-a-valid-address": "x", "not-a-valid-address-2": "y"}
+	for _, wp := range k.GetAllWhitelistedAddressPairs(ctx) {
+		snd, ok1 := w.partyName(wp.Sender)
+		rcv, ok2 := w.partyName(wp.Receiver)
+		if !ok2 && ok1 && len(snd) == 2 {
+			// an invalid receiver string stands for "a receiver on the chain the sender sends to"
+			if kind, bad := invalid[wp.Receiver]; bad {
+				peer := "A"
+				if snd[1:] == "A" {
+					peer = "B"
+				}
+				rcv, ok2 = kind+peer, true
+			}
+		}
+		if !ok1 || !ok2 {
+			st.Other++
+			continue
+		}
+		st.Wl = append(st.Wl, snd+">"+rcv)
+	}
+	sort.Strings(st.Wl)
+	for _, d := range k.GetAllBlacklistedDenoms(ctx) {
+		if n, ok := w.denomOf[d]; ok {
+			st.Bl = append(st.Bl, n)
+		} else {
+			st.Other++
+		}
+	}
+	sort.Strings(st.Bl)
 	sort.Slice(st.Rl, func(i, j int) bool { return st.Rl[i].P < st.Rl[j].P })
 	st.SupN = w.supply("A", realN)
 	st.SupV = w.supply("A", w.realV)
